@@ -730,4 +730,157 @@ theorem manberSub_revcomp (P P' : Pattern) (d : List Nat) (hmir : MirrorList P.c
     refine ⟨i', hi, hle, ?_, hk⟩
     rw [← hc]; unfold Pattern.patlen at *; exact hamCost_rc P.codes P'.codes d hmir hd i' hle
 
+/-! ## Go layer: `FilterBestMatch` keeps reported hits; `AllMatches` does not panic on a linear sequence -/
+
+
+theorem filterStep_inv (S : Hit → Prop) (st : List Hit × Hit) (m : Hit)
+    (h1 : ∀ h ∈ st.1, S h) (h2 : S st.2 ∨ st.2.2.2 ≥ 10000) (hm : S m) :
+    (∀ h ∈ (filterStep st m).1, S h) ∧ (S (filterStep st m).2 ∨ (filterStep st m).2.2.2 ≥ 10000) := by
+  obtain ⟨filtered, best⟩ := st
+  unfold filterStep
+  simp only
+  split
+  · split
+    · exact ⟨h1, Or.inl hm⟩
+    · exact ⟨h1, h2⟩
+  · split
+    · rename_i hb
+      refine ⟨?_, Or.inl hm⟩
+      intro h hh
+      rcases List.mem_cons.1 hh with rfl | hh
+      · rcases h2 with h2 | h2
+        · exact h2
+        · simp only at h2 hb; omega
+      · exact h1 h hh
+    · exact ⟨h1, h2⟩
+
+theorem filterFold_inv (S : Hit → Prop) (l : List Hit) (st : List Hit × Hit)
+    (h1 : ∀ h ∈ st.1, S h) (h2 : S st.2 ∨ st.2.2.2 ≥ 10000) (hl : ∀ h ∈ l, S h) :
+    (∀ h ∈ (l.foldl filterStep st).1, S h) ∧ (S (l.foldl filterStep st).2 ∨ (l.foldl filterStep st).2.2.2 ≥ 10000) := by
+  induction l generalizing st with
+  | nil => exact ⟨h1, h2⟩
+  | cons m l ih =>
+    simp only [List.foldl_cons]
+    have := filterStep_inv S st m h1 h2 (hl m (by simp))
+    exact ih _ this.1 this.2 (fun h hh => hl h (List.mem_cons_of_mem _ hh))
+
+/-- `FilterBestMatch` keeps a subset of the hits of `FindAllIndex` -/
+theorem filterBest_subset (res : List Hit) : ∀ h ∈ filterBest res, h ∈ res := by
+  intro h hh
+  unfold filterBest at hh
+  have inv := filterFold_inv (fun x => x ∈ res) res ([], (0, 0, 10000)) (by simp) (Or.inr (by simp)) (fun h hh => hh)
+  generalize res.foldl filterStep ([], (0, 0, 10000)) = r at hh inv
+  obtain ⟨filtered, best⟩ := r
+  simp only [List.mem_reverse] at hh
+  split at hh
+  · rename_i hb
+    rcases List.mem_cons.1 hh with rfl | hh
+    · rcases inv.2 with h2 | h2
+      · exact h2
+      · simp only at h2 hb; omega
+    · exact inv.1 h hh
+  · exact inv.1 h hh
+
+
+theorem mapM_option_ne_none {α β : Type} (f : α → Option β) (l : List α) (h : ∀ x ∈ l, f x ≠ none) : l.mapM f ≠ none := by
+  induction l with
+  | nil => simp
+  | cons a l ih =>
+    have ha := h a (by simp)
+    have hl := ih (fun x hx => h x (List.mem_cons_of_mem _ hx))
+    cases hfa : f a with
+    | none => exact absurd hfa ha
+    | some b =>
+      cases hml : l.mapM f with
+      | none => exact absurd hml hl
+      | some bs => simp [List.mapM_cons, hfa, hml]
+
+theorem errScan_bound (m : Nat) (levels : W → List W → List W) (sm : List W) (pos : Nat) (rs : List W) (cs : List Nat)
+    (i : Int) (k : Nat) (h : (i, k) ∈ errScan m levels sm pos rs cs) : i + m ≤ ((pos + cs.length : Nat) : Int) ∧ 1 ≤ cs.length := by
+  obtain ⟨t, ht, hi, _⟩ := (errScan_mem _ _ _ _ _ _ _ _).1 h
+  rw [hi]; omega
+
+/-- every raw hit ends inside the buffer -/
+theorem manberAll_bound (P : Pattern) (data : List Nat) (begin length : Nat) (i : Int) (k : Nat)
+    (h : (i, k) ∈ manberAll P data begin length) : i + P.patlen ≤ (data.length : Int) := by
+  have hw := window_length data begin length
+  unfold manberAll at h
+  split at h
+  · rw [manberNoErr_eq_sub] at h
+    have := errScan_bound _ _ _ _ _ _ _ _ h
+    simp only [Pattern.patlen] at this ⊢
+    omega
+  · split at h
+    · have := errScan_bound _ _ _ _ _ _ _ _ h
+      simp only [Pattern.patlen] at this ⊢
+      omega
+    · have := errScan_bound _ _ _ _ _ _ _ _ h
+      simp only [Pattern.patlen] at this ⊢
+      omega
+
+theorem findAllIndex_bound (P : Pattern) (seq : Bytes) (begin length : Int) (h : Hit)
+    (hh : h ∈ findAllIndex P seq false begin length) :
+    h.1 + P.patlen ≤ (seq.length : Int) ∧ 0 ≤ h.2.2 := by
+  unfold findAllIndex seqData at hh
+  simp only [Bool.false_eq_true, if_false, List.mem_map, Prod.exists] at hh
+  obtain ⟨a, b, hmem, rfl⟩ := hh
+  have := manberAll_bound P _ _ _ a b hmem
+  simp only [List.length_map] at this
+  exact ⟨this, by simp⟩
+
+theorem locatePattern_ne_none (pat frg : Bytes) (h : pat ≠ []) : locatePattern pat frg ≠ none := by
+  cases pat with
+  | nil => exact absurd rfl h
+  | cons a p => simp [locatePattern]
+
+theorem allMatchStep_aux (P : Pattern) (seq : Bytes) (start end_ : Int)
+    (hs : goSlice seq start end_ ≠ none) (hp : P.cpat.take P.patlen ≠ []) :
+    (match goSlice seq start end_ with
+      | none => none
+      | some frg =>
+        match locatePattern (P.cpat.take P.patlen) frg with
+        | none => none
+        | some (pb, pe, score) => some ((start + pb, start + pe, score) : Hit)) ≠ none := by
+  cases hg : goSlice seq start end_ with
+  | none => exact absurd hg hs
+  | some frg =>
+    simp only
+    cases hloc : locatePattern (P.cpat.take P.patlen) frg with
+    | none => exact absurd hloc (locatePattern_ne_none _ _ hp)
+    | some r => obtain ⟨pb, pe, score⟩ := r; simp
+
+theorem allMatchStep_ne_none (P : Pattern) (seq : Bytes) (h : Hit) (hm1 : 1 ≤ P.patlen) (hc : P.patlen ≤ P.cpat.length)
+    (hb : h.1 + P.patlen ≤ (seq.length : Int)) (hk : 0 ≤ h.2.2) : allMatchStep P seq h ≠ none := by
+  have hp : P.cpat.take P.patlen ≠ [] := by
+    intro h0
+    have := congrArg List.length h0
+    rw [List.length_take, List.length_nil] at this
+    omega
+  unfold allMatchStep
+  split
+  · apply allMatchStep_aux P seq _ _ _ hp
+    unfold goSlice
+    have : (0 ≤ max (h.1 - h.2.2 * 2) 0 && max (h.1 - h.2.2 * 2) 0 ≤ min (max (h.1 - h.2.2 * 2) 0 + ↑P.patlen + 4 * h.2.2) ↑seq.length
+        && min (max (h.1 - h.2.2 * 2) 0 + ↑P.patlen + 4 * h.2.2) ↑seq.length ≤ ↑seq.length) = true := by
+      simp only [Bool.and_eq_true, decide_eq_true_eq]
+      omega
+    simp [this]
+  · simp
+
+/-- **`AllMatches` on a linear sequence never panics** (D32 repaired: the re-alignment fragment may be as short as, or
+shorter than, the pattern; D19 repaired spans are returned as computed) -/
+theorem allMatches_no_panic (P : Pattern) (seq : Bytes) (begin length : Int)
+    (hm1 : 1 ≤ P.patlen) (hc : P.patlen ≤ P.cpat.length) :
+    allMatches P seq false begin length ≠ .panic := by
+  unfold allMatches
+  have : (filterBestMatch P seq false begin length).mapM (allMatchStep P seq) ≠ none := by
+    apply mapM_option_ne_none
+    intro h hh
+    have hin := filterBest_subset _ h hh
+    have hb := findAllIndex_bound P seq begin length h hin
+    exact allMatchStep_ne_none P seq h hm1 hc hb.1 hb.2
+  cases hm : (filterBestMatch P seq false begin length).mapM (allMatchStep P seq) with
+  | none => exact absurd hm this
+  | some l => simp
+
 end ObiVerif.Apat
